@@ -9,7 +9,10 @@ use std::marker::PhantomData;
 use std::pin::Pin;
 use std::task::{Context, Poll};
 
+#[cfg(kani)]
 pub const MAXJH: usize = 4;
+#[cfg(not(kani))]
+pub const MAXJH: usize = 32;
 #[derive(Clone, Copy, PartialEq, Eq, Debug)]
 pub enum JhState {
     Running,
@@ -135,6 +138,55 @@ pub fn set_spawn_slot<F>(slot: *mut std::mem::MaybeUninit<F>) {
         SPAWN_FILLED = false;
     }
 }
+/// Native runs (cross-validation of the MIR interpreter, replay): spawned futures are kept in
+/// a registry and polled by the harness executor by task id.  Not compiled under Kani (boxed
+/// futures are what CBMC cannot afford).
+#[cfg(not(kani))]
+pub mod native {
+    use super::*;
+    use std::cell::RefCell;
+    pub type BoxedTask = Pin<Box<dyn Future<Output = ()>>>;
+    thread_local! {
+        pub static SPAWNED: RefCell<Vec<(u8, Option<BoxedTask>)>> = RefCell::new(Vec::new());
+    }
+    pub fn reset() {
+        SPAWNED.with(|s| s.borrow_mut().clear());
+        unsafe {
+            NJH = 0;
+        }
+    }
+    pub fn take(id: u8) -> Option<BoxedTask> {
+        SPAWNED.with(|s| s.borrow_mut().iter_mut().find(|(i, _)| *i == id).and_then(|(_, f)| f.take()))
+    }
+    pub fn put_back(id: u8, f: BoxedTask) {
+        SPAWNED.with(|s| {
+            if let Some(e) = s.borrow_mut().iter_mut().find(|(i, _)| *i == id) {
+                e.1 = Some(f);
+            }
+        })
+    }
+    pub fn last_id() -> Option<u8> {
+        SPAWNED.with(|s| s.borrow().last().map(|(i, _)| *i))
+    }
+}
+
+#[cfg(not(kani))]
+pub fn spawn<F>(future: F) -> JoinHandle<F::Output>
+where
+    F: Future + Send + 'static,
+    F::Output: Send + 'static,
+{
+    let h = model_new_task::<F::Output>();
+    let id = h.id;
+    let wrapped: native::BoxedTask = Box::pin(async move {
+        let out = future.await;
+        model_finish_task::<F::Output>(id, out);
+    });
+    native::SPAWNED.with(|s| s.borrow_mut().push((id, Some(wrapped))));
+    h
+}
+
+#[cfg(kani)]
 pub fn spawn<F>(future: F) -> JoinHandle<F::Output>
 where
     F: Future + Send + 'static,
